@@ -47,6 +47,7 @@ def fork_call(fn, args, timeout=RUN_TIMEOUT):
                 val = fn(*args)
                 payload = json.dumps(['ok', val])
             except BaseException:
+                sys.__dict__.pop('tracebacklimit', None)    # (a scenario may have limited it)
                 payload = json.dumps(['error', traceback.format_exc()[-6000:]])
             data = payload.encode()
             off = 0
